@@ -235,11 +235,11 @@ class View:
                 return False
         return True
 
-    def eligible_spec(self, key: int) -> bool:
+    def eligible_spec(self, key: int, ignore_deferred: bool = False) -> bool:
         s = self.steps[key]
         safe, safe_nh = self.safe_spec(key)
         need = self.need_spec(key)
-        return (s["state"] == PENDING and not s["detached"] and not s["deferred"]
+        return (s["state"] == PENDING and not s["detached"] and (ignore_deferred or not s["deferred"])
                 and (safe or (s["hash_stored"] and safe_nh))
                 and need > OPTIONAL and need > self.snap["threshold"]
                 and bool(self.ready_spec(key))
